@@ -161,6 +161,35 @@ func c16JWT(flags string, in []byte) string {
 	return "ok|" + string(out) + "|again=same|" + string(cb)
 }
 
+// presentation -> JWT claims -> unsecured JWT -> presentation: the JWT form carries the same claims, nothing invented
+func c16JWTP(flags string, in []byte) string {
+	opts := append([]verifiable.PresentationOpt{}, c16POpts...)
+	opts = append(opts, verifiable.WithPresDisabledProofCheck(), verifiable.WithDisabledJSONLDChecks())
+	vp, err := verifiable.ParsePresentation(in, opts...)
+	if err != nil {
+		return "err|" + c16Class(err)
+	}
+	claims, err := vp.JWTClaims(nil, strings.Contains(flags, "m"))
+	if err != nil {
+		return "err|claims " + c16Class(err)
+	}
+	tok, err := claims.MarshalUnsecuredJWT()
+	if err != nil {
+		return "err|jwt " + c16Class(err)
+	}
+	vp2, err := verifiable.ParsePresentation([]byte(tok), opts...)
+	if err != nil {
+		return "err|parsejwt " + c16Class(err)
+	}
+	vp2.JWT = ""
+	out, err := vp2.MarshalJSON()
+	if err != nil {
+		return "err|marshal " + c16Class(err)
+	}
+	cb, _ := json.Marshal(claims)
+	return "ok|" + string(out) + "|again=same|" + string(cb)
+}
+
 func c16Key(kt string, pub []byte) string {
 	codes := map[string]uint64{"ed25519": fingerprint.ED25519PubKeyMultiCodec, "x25519": fingerprint.X25519PubKeyMultiCodec,
 		"p256": fingerprint.P256PubKeyMultiCodec, "p384": fingerprint.P384PubKeyMultiCodec, "p521": fingerprint.P521PubKeyMultiCodec,
@@ -273,6 +302,8 @@ func c16Run(input string) string {
 		return c16DID([]byte(f[2]))
 	case "jwt":
 		return c16JWT(f[1], []byte(f[2]))
+	case "jwtp":
+		return c16JWTP(f[1], []byte(f[2]))
 	case "key":
 		b, err := hex.DecodeString(f[2])
 		if err != nil {
@@ -615,6 +646,12 @@ func c16Gen(r *Rng, tier string) []string {
 				vc["expirationDate"] = "2030-01-01T19:23:24Z"
 			}
 			out = append(out, "jwt|"+r.Pick([]string{"m", "f"})+"|"+c16Marshal(vc))
+			if r.N(2) == 0 {
+				// a presentation through its JWT form (id and holder are optional members: both with and without)
+				vp := c16Presentation(r)
+				delete(vp, "proof")
+				out = append(out, "jwtp|"+r.Pick([]string{"m", "f"})+"|"+c16Marshal(vp))
+			}
 		default:
 			kt := r.Pick([]string{"ed25519", "x25519", "p256", "p384", "p521", "bls", "k256", "k256"})
 			var pub []byte
